@@ -556,3 +556,50 @@ Proof.
   - intros [k [j [Hk [Hj ->]]]]. exists k. split; [exact Hk|]. apply in_map_iff. exists j. split; [reflexivity|].
     apply in_seq. lia.
 Qed.
+
+(* ------------------------------------------------------------------ the tiling principle made explicit *)
+(* What is NOT formalised is measure theory: "simplices contained in the parent, with pairwise disjoint interiors, whose volumes
+   add up to the parent's, cover the parent (up to a null set)".  [Covers] stands for that conclusion; the principle is a
+   hypothesis of the theorems below, everything else (containment, disjointness, volumes) is proved. *)
+Definition abs_det_sum (ds : list (option Q)) : Q :=
+  fold_right (fun d acc => match d with Some s => (Qabs' s + acc)%Q | None => acc end) 0%Q ds.
+
+Definition tri_tiling_principle (Covers : list (list (list Q)) -> Prop) : Prop :=
+  forall Ws : list (list (list Q)),
+    (forall W, In W Ws -> convex_rows W /\ exists s, tri_child_check W = Some s /\ ~ (s == 0)%Q) ->   (* inside the parent, non-degenerate *)
+    all_pairs_ok (fun A B => separable 3 A B) Ws = true ->                                          (* interiors pairwise disjoint *)
+    (abs_det_sum (map tri_child_check Ws) == 1)%Q ->                                                (* volumes add up *)
+    Covers Ws.
+Definition tet_tiling_principle (Covers : list (list (list Q)) -> Prop) : Prop :=
+  forall Ws : list (list (list Q)),
+    (forall W, In W Ws -> convex_rows W /\ exists s, tet_child_check W = Some s /\ ~ (s == 0)%Q) ->
+    all_pairs_ok (fun A B => separable 4 A B) Ws = true ->
+    (abs_det_sum (map tet_child_check Ws) == 1)%Q ->
+    Covers Ws.
+
+Lemma all_pairs_ok_map {X Y} (f : X -> Y) (ok : Y -> Y -> bool) l :
+  all_pairs_ok ok (map f l) = all_pairs_ok (fun a b => ok (f a) (f b)) l.
+Proof.
+  induction l as [|x l IH]; simpl; [reflexivity|]. rewrite IH. f_equal.
+  clear IH. induction l as [|y l IHl]; simpl; [reflexivity|]. now rewrite IHl.
+Qed.
+
+Theorem tri_tiles_cover Covers W tpls :
+  tri_tiling_principle Covers -> tri_tiles_ok W tpls = true -> Covers (map W tpls).
+Proof.
+  intros HP Hok. destruct (tri_tiles_sound W tpls Hok) as [H1 [H2 H3]]. apply HP.
+  - intros M HM. apply in_map_iff in HM. destruct HM as [tpl [<- Ht]]. destruct (H1 tpl Ht) as [Hc [s [Hs [Hnz _]]]].
+    split; [exact Hc | exists s; split; assumption].
+  - now rewrite all_pairs_ok_map.
+  - unfold abs_det_sum. rewrite map_map. exact H2.
+Qed.
+
+Theorem tet_tiles_cover Covers W tpls :
+  tet_tiling_principle Covers -> tet_tiles_ok W tpls = true -> Covers (map W tpls).
+Proof.
+  intros HP Hok. destruct (tet_tiles_sound W tpls Hok) as [H1 [H2 H3]]. apply HP.
+  - intros M HM. apply in_map_iff in HM. destruct HM as [tpl [<- Ht]]. destruct (H1 tpl Ht) as [Hc [s [Hs [Hnz _]]]].
+    split; [exact Hc | exists s; split; assumption].
+  - now rewrite all_pairs_ok_map.
+  - unfold abs_det_sum. rewrite map_map. exact H2.
+Qed.
